@@ -523,14 +523,29 @@ func applyChangeToConfig(values map[string]*configapi.PathValue, path string, va
 	// Walk up the path and make sure that there are no parents marked as deleted in the given map, if so, remove them
 	parent := pathutils.GetParentPath(path)
 	for parent != "" {
-		if v := values[parent]; v != nil && v.Deleted {
-			// Delete the parent marked as deleted and return its path and value
-			delete(values, parent)
-			return parent, v
+		// a list entry /a/l[k=v] is also a child of the whole list /a/l (deleted by a path without keys)
+		for _, ancestor := range []string{parent, listOfEntry(parent)} {
+			if v := values[ancestor]; v != nil && v.Deleted {
+				// Delete the parent marked as deleted and return its path and value
+				delete(values, ancestor)
+				return ancestor, v
+			}
 		}
 		parent = pathutils.GetParentPath(parent)
 	}
 	return "", nil
+}
+
+// listOfEntry returns the path of the list a list entry belongs to: the entry's path without the keys of its
+// last element; for a path that does not end in a list entry it returns the path itself
+func listOfEntry(path string) string {
+	if !strings.HasSuffix(path, "]") {
+		return path
+	}
+	if i := strings.Index(path[strings.LastIndex(path, "/")+1:], "["); i >= 0 {
+		return path[:strings.LastIndex(path, "/")+1+i]
+	}
+	return path
 }
 
 func (r *Reconciler) reconcileApply(ctx context.Context, proposal *configapi.Proposal) (controller.Result, error) {
